@@ -6,6 +6,7 @@ import (
 
 func init() {
 	register(msc.QuorumAdapters()...)
+	register(msc.DoubleSignAdapters()...)
 	commands["parentsrun"] = func(a []string) int { return msc.CmdParentsRun(a, seed()) }
 	commands["rootsreplay"] = func(a []string) int { return msc.CmdRootsReplay(a, seed()) }
 }
